@@ -289,13 +289,14 @@ impl SubscriptionActor {
         let delegate = self.delegate.clone();
         let observer = Arc::clone(&self.observer);
         let push_registry = self.push_registry.clone();
+        let internal_id = self.internal_id;
         tokio::spawn(async move {
             #[cfg(deltio_verif)]
             crate::verif::point("sub_actor.delete.before_remove").await;
             // If the topic is still around, remove ourselves from it's list of subscriptions.
             let result = match topic {
                 Some(topic) => topic
-                    .remove_subscription(name.clone())
+                    .remove_subscription(name.clone(), internal_id)
                     .await
                     .map_err(|e| match e {
                         RemoveSubscriptionError::Closed => DeleteError::Closed,
